@@ -293,7 +293,7 @@ class Host(HeaderElement):
 		try:
 			inet_pton(AF_INET, self.host)
 			return True
-		except error:
+		except (error, ValueError):  # ValueError: embedded null character
 			return False
 
 	@property
@@ -302,7 +302,7 @@ class Host(HeaderElement):
 		try:
 			inet_pton(AF_INET6, self.host)
 			return True
-		except error:
+		except (error, ValueError):  # ValueError: embedded null character
 			return False
 
 	@property
